@@ -55,6 +55,7 @@ class Ctx:
         self.obs = []
         self.notes = []
         self.undecided = []
+        self.blind = []
         self.cur = None
 
     # ---- facts ------------------------------------------------------------------------
@@ -68,6 +69,10 @@ class Ctx:
                 raise CheckError("extractor blind: universe %r below floors (config %s)" % (u, config))
             if v.prog.duplicate_keys:
                 self.notes.append("duplicate function keys in %s: %s" % (config, sorted(v.prog.duplicate_keys)))
+            r = v.prog.inline_report
+            if r and (r["inlined"] or r["kept"] or r["skipped"]):
+                self.notes.append("new private helpers (config %s): %d call site(s) inlined %s; dropped after inlining %s; kept as functions %s; not inlined %s"
+                                  % (config, len(r["inlined"]), sorted(set("%s<-%s" % (c, k) for c, k in r["inlined"]))[:12], r.get("dropped"), r["kept"], r["skipped"]))
             self.views[config] = v
         return self.views[config]
 
@@ -82,8 +87,10 @@ class Ctx:
             raise CheckError("anchor lost: %s" % what)
 
     def floor(self, rule, n, floor):
+        # deferred: the rules still run, so that a change which both removes instances and breaks others is reported as
+        # the violation it is; a floor failure alone ends the check with CHECK-ERROR (exit 2)
         if n < floor:
-            raise CheckError("rule %s matched %d instances, floor is %d (a rule that matches nothing passes vacuously)" % (rule, n, floor))
+            self.blind.append("rule %s matched %d instances, floor is %d (a rule that matches nothing passes vacuously)" % (rule, n, floor))
 
     def count(self, rule, config=None):
         return sum(1 for o in self.obs if o.rule == rule and (config is None or o.config == config))
